@@ -770,20 +770,38 @@ func (x *Run) useContract(fr *Frame, st *State, con *Contract, args []Val, site 
 		res.heap[k] = v
 	}
 	res.epoch = ctx.epoch
+	exportedUse := map[string]bool{}
 	for _, o := range outs {
 		if o.panic {
 			continue
 		}
 		var conds, ens []string
+		condsBound := false
 		for _, c := range o.st.pc[p0:] {
 			switch pcKind(c) {
 			case 'c':
 				conds = append(conds, pcPlain(c))
+				if mentionsAny(pcPlain(c), bound) {
+					condsBound = true
+				}
 			case 'e':
 				ens = append(ens, pcPlain(c))
 			default:
+				// an engine assumption made on one path of the contract body
+				// (A-NONNIL at a dereference inside `if err == nil { ... }`) holds
+				// under that path's conditions only
 				if !mentionsAny(pcPlain(c), bound) {
-					res.assume(pcPlain(c))
+					a := pcPlain(c)
+					if len(conds) > 0 {
+						if condsBound {
+							continue
+						}
+						a = implies(and(conds...), a)
+					}
+					if !exportedUse[a] {
+						exportedUse[a] = true
+						res.assume(a)
+					}
 				}
 			}
 		}
